@@ -207,6 +207,7 @@ def plan(tier, seed):
     specs = enc.plan_heads(tier)
     for i, s in enumerate(specs):
         s.update(seed=seed, tier=tier, idx=i)
+    specs.append({"kind": "rel_listing", "seed": seed, "tier": tier, "idx": 899})
     if tier == "quick":
         # register-pair selector bytes completely (every ordered pair, both register orders): EX/MV r,r' and ADD/SUB r,r'
         for j, op in enumerate((0xED, 0xFD, 0x44, 0x45, 0x46, 0x4C, 0x4D, 0x4E)):
@@ -215,9 +216,47 @@ def plan(tier, seed):
     return specs
 
 
+def run_rel_listing(res):
+    """Relative jumps of both directions in ONE listing (a disassembly re-assembled as a whole): JR/JRZ/JRNZ/JRC/JRNC +n and
+    -n, each direction first once; the listing's bytes must be the original bytes."""
+    from .. import tok
+    from sc62015.pysc62015.instr import decode, OPCODES
+    from sc62015.pysc62015.sc_asm import Assembler
+    from binja_test_mocks.coding import Decoder
+    for order in ((0x12, 0x13, 0x18, 0x19, 0x1A, 0x1B, 0x1C, 0x1D, 0x1E, 0x1F),
+                  (0x13, 0x12, 0x19, 0x18, 0x1B, 0x1A, 0x1D, 0x1C, 0x1F, 0x1E)):
+        for base in (0x30040, 0x4FF80):
+            prog = b"".join(bytes([op, 0x04 + 3 * k]) for k, op in enumerate(order)) * 2
+            lines = []
+            ok = True
+            for off in range(0, len(prog), 2):
+                ins = decode(Decoder(prog[off:off + 2] + b"\x00\x00"), base + off, OPCODES)
+                if ins is None:
+                    ok = False
+                    break
+                lines.append(tok.to_asm_text(ins.render()))
+            if not ok:
+                continue
+            src = f".ORG 0x{base:05X}\n" + "".join(f"    {t}\n" for t in lines)
+            res.monitor("relative_jump_listing")
+            res.evaluations += 1
+            try:
+                got = bytes(Assembler().assemble(src).as_binary())
+            except BaseException as e:  # noqa: BLE001
+                res.violation({"clause": "listing_rejected", "kind": "relative_jumps"}, {"lines": lines},
+                              f"{type(e).__name__}:{str(e)[:200]}")
+                continue
+            if got != prog:
+                res.violation({"clause": "listing_differs_from_original_bytes", "kind": "relative_jumps"}, {"lines": lines},
+                              {"listing": got.hex(), "original": prog.hex()})
+
+
 def run_shard(spec) -> Result:
     res = Result()
     _setup()
+    if spec.get("kind") == "rel_listing":
+        run_rel_listing(res)
+        return res
     r = rng(spec["seed"], "c09", spec["idx"])
     seen = {}
     nvar = 2 if spec["tier"] == "quick" else 6
